@@ -6,9 +6,9 @@ TRUST = "trusted: Coq 8.16.1 kernel, tools/gen_tables.py, extraction (ExtrOcamlB
 CHECKS = {
  "C01": ("proof", "Coq theorems on the loader model (framing: termination, conservation of bytes, accepted => validated, message = announced prefix); the validator = specification-decoder half is decided by correspondence: implementation, extracted model and the extracted Coq specification decoder run on every generated case (structured valid messages, every single-byte corruption at every offset, hand-aimed boundary cases) incl. accessor dumps; partial: soundness/completeness against the spec decoder is not yet a theorem",
          "Coq proof (framing) + differential correspondence with an extracted specification decoder as oracle"),
- "C02": ("proof", "model of construction = abstract message (Wire.HeaderEdit.build) + the specification encoder; Coq theorems: the encoder/decoder ROUND TRIP at value and body level for every byte order, position and nesting (C02_value_roundtrip, C02_body_roundtrip: numbers, strings, arrays, structs, dict entries, variants), plus the abstract laws (signature field, byte-order conversion changes no value and is involutive, copy = equal message with serial 0); the message-level statement (fixed header + field array + body) is kept as C02_full_statement and decided per generated program: implementation bytes = extracted spec encoder bytes, spec decoder accepts them with identical re-encoding, reparse dump identical, re-marshal byte-identical, other-byte-order encoding read back through the iterator; partial: the message-level composition of the proved pieces is not yet a theorem",
+ "C02": ("proof", "model of construction = abstract message (Wire.HeaderEdit.build) + the specification encoder; Coq theorems: the encoder/decoder ROUND TRIP at value and body level for every byte order, position and nesting (C02_value_roundtrip, C02_body_roundtrip: numbers, strings, arrays, structs, dict entries, variants), plus the abstract laws (signature field, byte-order conversion changes no value and is involutive, copy = equal message with serial 0); and at MESSAGE level (C02_roundtrip: spec decoder of the canonical serialisation of any well-formed abstract message = that message, either byte order, any field order); the DBusTypeWriter is tied to the encoder per generated program: implementation bytes = extracted spec encoder bytes, spec decoder accepts them with identical re-encoding, reparse dump identical, re-marshal byte-identical, other-byte-order encoding read back through the iterator; the two signature print/parse premises inside wf_msg are checked per message, not proved for all types",
          "Coq proof (abstract laws) + byte-exact differential against the extracted specification encoder/decoder"),
- "C12": ("proof", "Coq theorems on the abstract header editor (read-back, deletion, all other fields keep value/presence/relative order, strip removes exactly the unknown fields, flags/serial/type/signature/body untouched for every edit sequence) and on re-serialisation (C12_fields_reserialise: the encoded field array of any well-formed field list decodes back to exactly that list); the byte-level C code is tied to the model by comparing the serialised bytes after every edit on generated messages in both byte orders with shuffled and unknown fields; partial: well-formedness of the re-serialisation is C12_full_statement, decided by the spec decoder at run time",
+ "C12": ("proof", "Coq theorems on the abstract header editor (read-back, deletion, all other fields keep value/presence/relative order, strip removes exactly the unknown fields, flags/serial/type/signature/body untouched for every edit sequence) and on re-serialisation (C12_fields_reserialise: the encoded field array of any well-formed field list decodes back to exactly that list); the byte-level C code is tied to the model by comparing the serialised bytes after every edit on generated messages in both byte orders with shuffled and unknown fields; and C12_wellformed: the re-serialisation of any well-formed edited message decodes to exactly that message",
          "Coq proof (editor laws) + byte-exact differential after every edit"),
  "C11": ("proof", "Coq theorem: for every stream and every partition the produced messages and the corruption verdict equal those of the unsplit stream, proved from locality of load_message (hypothesis load_local, tied to the code by running every case chunked and unsplit); also: framing reads only the fixed header, nothing after corruption, conservation of bytes",
          "Coq proof (induction over chunks with a stability lemma) + chunked/unsplit differential"),
